@@ -181,6 +181,37 @@ def run_case(ctx, kind, rng, idx):
     C, thr, info = planted(rng)
     C = C.astype([np.int64, np.int64, np.int32, np.uint32, np.uint16][
         int(rng.integers(0, 5))])
+    if rng.random() < 0.04:
+        # component totals beyond 2**53 that differ by one or two counts:
+        # "largest total count" has to be decided in exact integer arithmetic
+        k = int(rng.integers(2, 4))
+        sz = [int(rng.integers(2, 4)) for _ in range(k)]
+        n_h = sum(sz)
+        base = 2 ** int(rng.integers(54, 59))
+        C = np.zeros((n_h, n_h), dtype=object)
+        pos, totals = 0, []
+        for s_ in sz:
+            ids = list(range(pos, pos + s_))
+            for a_, b_ in zip(ids, ids[1:] + ids[:1]):
+                C[a_, b_] = base * 3 // s_
+            totals.append(sum(int(C[a_].sum()) for a_ in ids))
+            pos += s_
+        # equalise, then make one component heavier by a count or two
+        top = max(totals)
+        pos = 0
+        for j_, s_ in enumerate(sz):
+            C[pos, pos + 1] += top - totals[j_]
+            pos += s_
+        win = int(rng.integers(0, k))
+        C[sum(sz[:win]), sum(sz[:win]) + 1] += int(rng.integers(1, 3))
+        C = np.array(C.tolist(), dtype=[np.int64, np.uint64][
+            int(rng.integers(0, 2))])
+        p_ = rng.permutation(n_h)
+        C = C[np.ix_(p_, p_)]
+        thr = 1
+        info = {'blocks': sz, 'isolated': 0, 'sinks': 0, 'bridges': 0,
+                'huge-near-tie': True}
+        ctx.count('huge_near_tie_cases')
     n = len(C)
     renumber = bool(rng.random() < 0.5)
     desc = dict(info, n=n, threshold=thr, renumber=renumber,
